@@ -13,7 +13,7 @@ for f in glob.glob(os.path.join(src, "demo", "*")):
 m = json.load(open(os.path.join(src, "meta.json")))
 conf = open(os.path.join(src, "confirm.log")).read() if os.path.exists(os.path.join(src, "confirm.log")) else ""
 detected = {}
-for rd in ("/tmp/seed/results", "/tmp/seed/results2", "/tmp/seed/results3", "/tmp/seed/results6", "/tmp/seed/results7", "/tmp/seed/results8", "/tmp/seed/results9"):
+for rd in ("/tmp/seed/results", "/tmp/seed/results2", "/tmp/seed/results3", "/tmp/seed/results6", "/tmp/seed/results7", "/tmp/seed/results8", "/tmp/seed/results9", "/tmp/seed/results10"):
     f = os.path.join(rd, ID + ".txt")
     if os.path.exists(f):
         for mm in re.finditer(r"== (C\d+) rc=(\d+) t=(\d+)s", open(f).read()):
